@@ -227,8 +227,15 @@ TransferWithinRejected(d, r, p) ==
 
 -----------------------------------------------------------------------------
 (* clone_within / clone_into_external / clone_multiple_into_external         *)
-(* rs: sequence of subtree roots in DOM d, pairwise disjoint subtrees;       *)
-(* e: destination DOM (e = d for clone_within).                              *)
+(* rs: sequence of subtree roots in DOM d; e: destination DOM (e = d for     *)
+(* clone_within).  The roots need not be disjoint: the implementation works  *)
+(* through a queue of (copy of the parent, original child) pairs, so an      *)
+(* instance that is reached twice - a root listed twice, a root inside       *)
+(* another root's subtree - is copied twice, each copy complete.  Ref        *)
+(* properties are rewritten on the copy recorded LAST for each original      *)
+(* only; an earlier copy of a twice-copied original keeps its Ref values     *)
+(* as they were (what the code does; with disjoint roots there is no such    *)
+(* copy and the rule is the documented one).                                 *)
 
 CloneOrder(rs) == Bfs(rs)
 
@@ -236,25 +243,35 @@ DisjointRoots(rs) ==
     /\ NoDup(rs)
     /\ \A i, j \in 1..Len(rs) : i # j => rs[i] \notin Desc(rs[j])
 
+\* the queue discipline, with the position of the item that enqueued each item (0 for the roots)
+RECURSIVE CloneItemsFrom(_, _)
+CloneItemsFrom(items, i) ==
+    IF i > Len(items) THEN items
+    ELSE CloneItemsFrom(items \o [k \in 1..Len(kids[items[i].o]) |-> [o |-> kids[items[i].o][k], pp |-> i]], i + 1)
+CloneItems(rs) == CloneItemsFrom([i \in 1..Len(rs) |-> [o |-> rs[i], pp |-> 0]], 1)
+
 CloneS(d, rs, e) ==
-    LET order == CloneOrder(rs)
-        n     == Len(order)
+    LET items == CloneItems(rs)
+        n     == Len(items)
         new   == nextRef..(nextRef + n - 1)
-        src(x) == order[x - nextRef + 1]                 \* original of a copy
-        copy(o) == NewRef(IndexOf(order, o))             \* copy of an original
-        cloned == SeqSet(order)
+        pos(x) == x - nextRef + 1
+        src(x) == items[pos(x)].o                        \* original of a copy
+        copiesOf(o) == {i \in 1..n : items[i].o = o}
+        copy(o) == NewRef(CHOOSE i \in copiesOf(o) : \A j \in copiesOf(o) : j <= i)   \* the copy recorded last
+        cloned == {items[i].o : i \in 1..n}
+        kidsOfPos(i) == SelectSeq([j \in 1..n |-> j], LAMBDA j : items[j].pp = i)
     IN
     /\ Len(rs) >= 1
     /\ \A i \in 1..Len(rs) : rs[i] \in Refs /\ owner[rs[i]] = d
-    /\ DisjointRoots(rs)
+    /\ (e = d => Len(rs) = 1)
     /\ root[e] # Null
     /\ nextRef + n - 1 <= MaxRef
     /\ owner'  = [x \in Refs |-> IF x \in new THEN e ELSE owner[x]]
     /\ parent' = [x \in Refs |-> IF x \in new
-                                 THEN (IF src(x) \in SeqSet(rs) THEN Null ELSE copy(parent[src(x)]))
+                                 THEN (IF items[pos(x)].pp = 0 THEN Null ELSE NewRef(items[pos(x)].pp))
                                  ELSE parent[x]]
     /\ kids'   = [x \in Refs |-> IF x \in new
-                                 THEN [k \in 1..Len(kids[src(x)]) |-> copy(kids[src(x)][k])]
+                                 THEN [k \in 1..Len(kidsOfPos(pos(x))) |-> NewRef(kidsOfPos(pos(x))[k])]
                                  ELSE kids[x]]
     /\ label'  = [x \in Refs |-> IF x \in new THEN label[src(x)] ELSE label[x]]
     /\ refp'   = [x \in Refs |->
@@ -262,6 +279,7 @@ CloneS(d, rs, e) ==
                     THEN [s \in Slots |->
                             LET v == refp[src(x)][s] IN
                             IF v = Absent THEN Absent
+                            ELSE IF copy(src(x)) # x THEN v               \* an earlier copy of a twice-copied original
                             ELSE IF v \in cloned THEN copy(v)             \* into the cloned set
                             ELSE IF v \in Refs /\ owner[v] = e THEN v     \* exists in destination
                             ELSE Null]
@@ -269,7 +287,7 @@ CloneS(d, rs, e) ==
     /\ nextRef' = nextRef + n
     /\ UNCHANGED root
 
-CloneRet(rs) == [i \in 1..Len(rs) |-> NewRef(IndexOf(CloneOrder(rs), rs[i]))]
+CloneRet(rs) == [i \in 1..Len(rs) |-> NewRef(i)]      \* the roots are copied first, in list order
 
 CloneU(d, rs, e) ==
     LET order == CloneOrder(rs)
